@@ -463,7 +463,7 @@ class Builder:
             w = ir.PACK_WIDTH[code]
             fmt = self.pick('<>') + code
             if w >= 4 and code.isupper() and self.labels and self.chance(0.5):
-                return ir.Pack(fmt, self.labelval_any() if code == 'Q' else ir.Pos(self.label(), ir.Lit(self.pick([0, 0x08000000, 0x20000000]))))
+                return ir.Pack(fmt, ir.Pos(self.label(), ir.Lit(self.pick([0, 0x08000000, 0x20000000, 0x7ffff800, 1 << 40] if code == 'Q' else [0, 0x08000000, 0x20000000]))))
             lo, hi = (-(1 << (8 * w - 1)), (1 << (8 * w - 1)) - 1) if code.islower() else (0, (1 << (8 * w)) - 1)
             return ir.Pack(fmt, self.lit_or_const(self.edgy(lo, hi)))
         if k == 3:
